@@ -804,7 +804,7 @@ func rulesC09(w *World, r *Report) {
 		w.ruleLoopExits(r, "C09.R3 null is a value, not a terminator", false)
 		// the string decoder accepts N
 		if c.Dec != nil {
-			run := w.decTable(c.Dec)['N']
+			run := w.decTable(c.Dec).at('N')
 			r.add("C09.R3 null is a value, not a terminator", fnName(c.Dec)+" · accepts N as the empty string", w.pos(c.Dec.Pos()), run.OK && run.Payload == 0 && !run.Unknown, "a nil-error return is reached for tag N without pulling payload")
 		}
 	} else {
